@@ -1,16 +1,21 @@
 ------------------------------ MODULE Trace_Btor2Ref ------------------------------
 (***************************************************************************)
-(* Recorded runs of the real BTOR2 parser: whenever a fault-free run ends   *)
-(* without an error, the sequence of lines it returned must be exactly the *)
-(* reference reading Btor2Ref!Read of the input - every id, width, index,  *)
-(* constant, symbol and comment as written (C06, C03).                     *)
+(* Recorded fault-free runs of the real BTOR2 parser against the reference *)
+(* reading Btor2Ref!ReadLoc of the input:                                  *)
+(*   - a run that ends without an error: the reference accepts the input   *)
+(*     and the lines returned are exactly the reference's - every id,      *)
+(*     width, index, constant, symbol and comment as written (C06, C03);   *)
+(*   - a run that ends with a syntax error: the reference rejects the      *)
+(*     input too, the position the error was raised at lies on the first   *)
+(*     offending token (C08), and the lines handed out before it are the   *)
+(*     ones in front of that token.                                        *)
 (* Other runs and other parsers in the same file are skipped.              *)
 (***************************************************************************)
 EXTENDS Btor2Ref, Json, IOUtils, TLC
 
 Rec == ndJsonDeserialize(IOEnv.TRACE)
-VARIABLES l, active, vis, binary, items, failed
-tvars == <<l, active, vis, binary, items, failed>>
+VARIABLES l, active, vis, items, failed, gupos
+tvars == <<l, active, vis, items, failed, gupos>>
 R == Rec[l]
 IsEv(e) == l <= Len(Rec) /\ R.ev = e /\ l' = l + 1
 NonItems == {<<"nohdr">>, <<"section">>, <<"nocomment">>}
@@ -19,28 +24,34 @@ TReset ==
   /\ IsEv("reset")
   /\ active' = (R.kind = "parser" /\ R.parser \in {"btor2"} /\ ~R.faulty)
   /\ vis' = (IF R.kind = "parser" /\ R.parser \in {"btor2"} THEN R.input ELSE <<>>)
-  /\ binary' = FALSE
-  /\ items' = <<>> /\ failed' = FALSE
+  /\ items' = <<>> /\ failed' = "" /\ gupos' = -1
 
 TRet ==
   /\ active /\ IsEv("pret")
   /\ items' = IF R.res \in {"ok", "some"} /\ R.item \notin NonItems THEN Append(items, R.item) ELSE items
-  /\ failed' = (failed \/ R.res \in {"err", "panic"})
-  /\ UNCHANGED <<active, vis, binary>>
+  /\ failed' = (IF failed # "" THEN failed ELSE IF R.res = "panic" THEN "panic" ELSE IF R.res = "err" THEN R.kind ELSE "")
+  /\ UNCHANGED <<active, vis, gupos>>
+
+TGu ==
+  /\ active /\ IsEv("gu")
+  /\ gupos' = (IF R.io THEN gupos ELSE R.pos)
+  /\ UNCHANGED <<active, vis, items, failed>>
 
 TEnd ==
   /\ active /\ IsEv("pend")
-  /\ (~failed => \E r \in {Read(vis)} : r[1] = "ok" /\ r[2] = items)
-  /\ UNCHANGED <<active, vis, binary, items, failed>>
+  /\ \E r \in {ReadLoc(vis)} :
+       /\ failed = "" => r[1] = "ok" /\ r[2] = items
+       /\ failed = "syntax" => r[1] = "bad" /\ gupos >= r[3] /\ gupos <= r[4] /\ r[2] = items
+  /\ UNCHANGED <<active, vis, items, failed, gupos>>
 
 TSkip ==
   /\ l <= Len(Rec) /\ l' = l + 1
   /\ \/ ~active /\ R.ev # "reset"
-     \/ active /\ R.ev \notin {"reset", "pret", "pend"}
-  /\ UNCHANGED <<active, vis, binary, items, failed>>
+     \/ active /\ R.ev \notin {"reset", "pret", "pend", "gu"}
+  /\ UNCHANGED <<active, vis, items, failed, gupos>>
 
-TInit == l = 1 /\ active = FALSE /\ vis = <<>> /\ binary = FALSE /\ items = <<>> /\ failed = FALSE
-TNext == TReset \/ TRet \/ TEnd \/ TSkip
+TInit == l = 1 /\ active = FALSE /\ vis = <<>> /\ items = <<>> /\ failed = "" /\ gupos = -1
+TNext == TReset \/ TRet \/ TGu \/ TEnd \/ TSkip
 TSpec == TInit /\ [][TNext]_tvars
 
 Accepted ==
